@@ -39,6 +39,8 @@ package ranges
 //@   ensures imp(result1 == nil, result.end == ite($rfS(r.Start) < 0 && r.End == "", 1, ite($rfS(r.Start) > 0 && !r.Exclude, $rfE(r.End) + 1, $rfE(r.End))))
 //@   ensures imp(result1 == nil, r.Buffer == (old(r.Buffer) || $rfS(r.Start) < 0))
 //@   ensures imp(result1 == nil, imp(r.Start != "", $atoiOk(r.Start)) && imp(r.End != "", $atoiOk(r.End)))
+// ... and ONLY then: every pair of numeric bounds is accepted (equal bounds [s..s] included)
+//@   ensures imp(imp(r.Start != "", $atoiOk(r.Start)) && imp(r.End != "", $atoiOk(r.End)), result1 == nil)
 //@   ghost at return: result.$seen = 0
 //@   ghost at return: result.$done = false
 //@   ensures imp(result1 == nil, result.$seen == 0 && !result.$done)
